@@ -39,7 +39,8 @@ type ModelInputs struct {
 func (e *Engine) VerifyFunction(fn *ssa.Function, con *Contract) (res *FnResult) {
 	t0 := time.Now()
 	fx := &FnCtx{eng: e, fn: fn, con: con, obls: map[string]*Obligation{}, heapSorts: map[string]string{}, loops: map[*ssa.BasicBlock]*loopInfo{},
-		unsup: map[string]bool{}, notes: map[string]bool{}, params: map[string]*Val{}, maxPaths: 6000, keySorts: map[string]string{}, locksTouched: map[string]bool{}, covers: map[string]bool{}, exercised: map[*AtCall]bool{}}
+		unsup: map[string]bool{}, notes: map[string]bool{}, params: map[string]*Val{}, maxPaths: 6000, keySorts: map[string]string{}, locksTouched: map[string]bool{}, covers: map[string]bool{}, exercised: map[*AtCall]bool{}, ipdomCache: map[*ssa.Function]map[*ssa.BasicBlock]*ssa.BasicBlock{}, joinCache: map[joinKey]*ssa.BasicBlock{}}
+	fx.noMerge = os.Getenv("TURNVC_NOMERGE") != ""
 	fx.sol = NewSolver(e.TimeoutMs)
 	defer fx.sol.Close()
 	res = &FnResult{Func: shortFn(fn.String())}
